@@ -65,9 +65,23 @@ enum ClockStep {
     Hours(u8),
 }
 
+/// How the absolute-time argument of EXPIREAT / PEXPIREAT / SET EXAT|PXAT / GETEX EXAT|PXAT is
+/// aimed when the step runs (absolute time = start epoch + virtual clock).
+#[derive(Clone, Debug, Serialize, Deserialize)]
+enum AbsAim {
+    /// start epoch + the grammar's own small value (which lives in the virtual clock's range)
+    Virtual,
+    /// now + delta ms; for second-granular commands the second containing it, plus one if `up`
+    Now(i32, bool),
+    /// a pending deadline of the model + delta ms (same rounding rule)
+    Deadline(u16, i32, bool),
+}
+
 #[derive(Clone, Debug, Serialize, Deserialize)]
 enum Step {
     Cmd(Argv),
+    /// a command carrying an absolute time; the argument is resolved when the step runs
+    AbsCmd(Argv, AbsAim),
     /// the clock moves; the next command carries the new time (set_time)
     Clock(ClockStep),
     /// the clock moves and the TTL manager ticks (evict_expired_direct / evict_expired_all_shards)
@@ -83,8 +97,101 @@ enum Step {
 
 #[derive(Clone, Debug, Serialize, Deserialize)]
 struct SeqCase {
+    /// server start in absolute Unix ms (what ShardActor::new takes from the wall clock); the
+    /// virtual clock counts from it
+    #[serde(default)]
+    epoch_ms: u64,
+    /// virtual time of the first step
     t0: u16,
     steps: Vec<Step>,
+}
+
+fn epoch_strategy() -> BoxedStrategy<u64> {
+    prop_oneof![
+        2 => Just(0u64),
+        1 => Just(5_000u64),
+        1 => Just(1_700_000_000_000u64),
+        3 => Just(1_700_000_000_750u64),
+        2 => (1u64..1000).prop_map(|f| 1_700_000_000_000 + f),
+        1 => (1_000u64..2_000_000_000_000).prop_filter("non-zero ms fraction", |e| e % 1000 != 0),
+        1 => Just(1u64),
+        1 => Just(999u64),
+        1 => Just(1001u64),
+    ]
+    .boxed()
+}
+
+/// Position and unit (true = seconds) of the absolute-time argument, if the command has one.
+fn abs_arg(argv: &Argv) -> Option<(usize, bool)> {
+    let name = gen::cmd_name(argv);
+    match name.as_str() {
+        "EXPIREAT" if argv.len() >= 3 => Some((2, true)),
+        "PEXPIREAT" if argv.len() >= 3 => Some((2, false)),
+        "SET" | "GETEX" => {
+            let from = if name == "SET" { 3 } else { 2 };
+            for i in from..argv.len().saturating_sub(1) {
+                if argv[i].eq_ignore_ascii_case(b"EXAT") {
+                    return Some((i + 1, true));
+                }
+                if argv[i].eq_ignore_ascii_case(b"PXAT") {
+                    return Some((i + 1, false));
+                }
+            }
+            None
+        }
+        _ => None,
+    }
+}
+
+fn delta_ms() -> BoxedStrategy<i32> {
+    prop_oneof![
+        4 => prop_oneof![Just(0), Just(1), Just(-1), Just(2), Just(1000), Just(-1000), Just(999), Just(-999), Just(1001), Just(-1001)],
+        3 => -3000i32..3000,
+        1 => prop_oneof![Just(3_600_000), Just(-3_600_000), Just(40_000), Just(-40_000)],
+    ]
+    .boxed()
+}
+
+fn abs_aim() -> BoxedStrategy<AbsAim> {
+    prop_oneof![
+        3 => Just(AbsAim::Virtual),
+        5 => (delta_ms(), any::<bool>()).prop_map(|(d, u)| AbsAim::Now(d, u)),
+        3 => (any::<u16>(), delta_ms(), any::<bool>()).prop_map(|(w, d, u)| AbsAim::Deadline(w, d, u)),
+    ]
+    .boxed()
+}
+
+/// A grammar command; if it carries an absolute time, mostly with a run-time aim (1 in 6 keeps
+/// the grammar's raw value: far past under a large epoch, plus the extreme spellings).
+fn cmd_step(o: &GenOpts) -> BoxedStrategy<Step> {
+    (gen::data_command(o), abs_aim(), 0u8..6)
+        .prop_map(|(argv, aim, raw)| if abs_arg(&argv).is_some() && raw != 0 { Step::AbsCmd(argv, aim) } else { Step::Cmd(argv) })
+        .boxed()
+}
+
+/// Dedicated absolute-time commands (the grammar produces them in ~3 % of the commands only).
+fn abs_cmd_step(o: &GenOpts) -> BoxedStrategy<Step> {
+    (gen::key(o), 0u8..8, gen::value(), abs_aim())
+        .prop_map(|(k, sel, v, aim)| {
+            let b = |s: &str| s.as_bytes().to_vec();
+            let argv: Argv = match sel {
+                0 | 1 => vec![b("EXPIREAT"), k, b("0")],
+                2 | 3 => vec![b("PEXPIREAT"), k, b("0")],
+                4 => vec![b("SET"), k, v, b("EXAT"), b("0")],
+                5 => vec![b("SET"), k, v, b("PXAT"), b("0")],
+                6 => vec![b("GETEX"), k, b("EXAT"), b("0")],
+                _ => vec![b("GETEX"), k, b("PXAT"), b("0")],
+            };
+            let aim = if matches!(aim, AbsAim::Virtual) { AbsAim::Now(0, true) } else { aim };
+            Step::AbsCmd(argv, aim)
+        })
+        .boxed()
+}
+
+#[derive(Clone, Debug, Serialize, Deserialize)]
+struct GridCase {
+    shard: bool,
+    case: SeqCase,
 }
 
 fn clock_step() -> BoxedStrategy<ClockStep> {
@@ -101,7 +208,8 @@ fn clock_step() -> BoxedStrategy<ClockStep> {
 
 fn exec_step(o: &GenOpts) -> BoxedStrategy<Step> {
     prop_oneof![
-        12 => gen::data_command(o).prop_map(Step::Cmd),
+        12 => cmd_step(o),
+        1 => abs_cmd_step(o),
         2 => clock_step().prop_map(Step::Clock),
         1 => clock_step().prop_map(Step::Tick),
     ]
@@ -111,7 +219,8 @@ fn exec_step(o: &GenOpts) -> BoxedStrategy<Step> {
 fn shard_step(o: &GenOpts) -> BoxedStrategy<Step> {
     let k = || gen::key(o);
     prop_oneof![
-        14 => gen::data_command(o).prop_map(Step::Cmd),
+        14 => cmd_step(o),
+        1 => abs_cmd_step(o),
         3 => clock_step().prop_map(Step::Clock),
         1 => clock_step().prop_map(Step::Tick),
         2 => k().prop_map(Step::FastGet),
@@ -128,7 +237,7 @@ fn seq_case(step: impl Fn(&GenOpts) -> BoxedStrategy<Step>, binary: bool, max_le
     let small = GenOpts { key_pool: 4, binary_names: binary, ..GenOpts::default() };
     let wide = GenOpts { key_pool: 10, binary_names: binary, ..GenOpts::default() };
     let mk = |o: &GenOpts, lo: usize, hi: usize| {
-        (1u16..2000, proptest::collection::vec(step(o), lo..=hi)).prop_map(|(t0, steps)| SeqCase { t0, steps })
+        (epoch_strategy(), 1u16..2000, proptest::collection::vec(step(o), lo..=hi)).prop_map(|(epoch_ms, t0, steps)| SeqCase { epoch_ms, t0, steps })
     };
     if long {
         prop_oneof![
@@ -155,7 +264,7 @@ enum Mode {
 
 trait Sut {
     fn mode(&self) -> Mode;
-    /// generic command at time `now` (set_time + execute)
+    /// generic command at absolute time `now` ms (set_time(now - start epoch) + execute)
     fn exec(&mut self, argv: &Argv, now: u64) -> Reply;
     /// TTL manager tick at time `now`
     fn tick(&mut self, now: u64);
@@ -168,6 +277,21 @@ trait Sut {
 
 struct ExecSut {
     ex: CommandExecutor,
+    /// absolute start time; the executor's virtual clock is `now - epoch`
+    epoch: u64,
+}
+
+impl ExecSut {
+    fn new(epoch_ms: u64) -> ExecSut {
+        // exactly what ShardActor::new does with (simulation_start_epoch, start_millis)
+        let mut ex = CommandExecutor::new();
+        ex.set_simulation_start_epoch((epoch_ms / 1000) as i64);
+        ex.set_simulation_start_epoch_ms(epoch_ms as i64);
+        ExecSut { ex, epoch: epoch_ms }
+    }
+    fn vt(&self, now: u64) -> VirtualTime {
+        VirtualTime::from_millis(now.saturating_sub(self.epoch))
+    }
 }
 
 impl Sut for ExecSut {
@@ -176,7 +300,7 @@ impl Sut for ExecSut {
     }
     fn exec(&mut self, argv: &Argv, now: u64) -> Reply {
         // exactly what ShardActor::run does for ShardMessage::Command
-        self.ex.set_time(VirtualTime::from_millis(now));
+        self.ex.set_time(self.vt(now));
         match parse_zc(argv) {
             Ok(cmd) => Reply::from_resp(&self.ex.execute(&cmd)),
             Err(e) => Reply::Error(e.into_bytes()),
@@ -184,7 +308,7 @@ impl Sut for ExecSut {
     }
     fn tick(&mut self, now: u64) {
         // ShardMessage::EvictExpired
-        self.ex.evict_expired_direct(VirtualTime::from_millis(now));
+        self.ex.evict_expired_direct(self.vt(now));
     }
 }
 
@@ -195,16 +319,17 @@ struct ShardSut {
 }
 
 impl ShardSut {
-    fn new(t0: u64) -> ShardSut {
+    fn new(epoch_ms: u64, t0: u64) -> ShardSut {
         let rt = tokio::runtime::Builder::new_current_thread().enable_all().build().expect("runtime");
-        // the state is created at harness time 0 so that its epoch base is 0 and absolute
-        // times (EXAT/PXAT/EXPIREAT/PEXPIRETIME) are plain harness milliseconds
-        let time = VerifTime::new(0);
+        // the TimeSource is the absolute (wall) clock: the state reads it once at construction
+        // (start_millis = epoch of every shard executor) and computes virtual time as
+        // now_millis() - start_millis afterwards
+        let time = VerifTime::new(epoch_ms);
         let state = {
             let _g = rt.enter();
             ShardedActorState::with_config_and_time_source(ShardConfig::with_shards(1), time.clone())
         };
-        time.set(t0);
+        time.set(epoch_ms + t0);
         ShardSut { rt, state: Some(state), time }
     }
     fn st(&self) -> &ShardedActorState<VerifTime> {
@@ -563,7 +688,9 @@ enum Resync {
 struct Checker<'a, 'c, S: Sut> {
     sut: S,
     model: Model,
+    /// absolute time in ms (start epoch + virtual clock); the model lives in absolute time
     now: i64,
+    epoch: i64,
     ctx: &'a mut CaseCtx<'c>,
     /// sharded mode: the clock moved and no generic command / tick has reached the shard since
     stale: bool,
@@ -577,11 +704,12 @@ struct Checker<'a, 'c, S: Sut> {
 }
 
 impl<'a, 'c, S: Sut> Checker<'a, 'c, S> {
-    fn new(sut: S, t0: i64, ctx: &'a mut CaseCtx<'c>) -> Self {
+    fn new(sut: S, epoch: i64, t0: i64, ctx: &'a mut CaseCtx<'c>) -> Self {
         Checker {
             sut,
-            model: Model::new(t0),
-            now: t0,
+            model: Model::new(epoch + t0),
+            now: epoch + t0,
+            epoch,
             ctx,
             stale: false,
             writes: 0,
@@ -601,7 +729,14 @@ impl<'a, 'c, S: Sut> Checker<'a, 'c, S> {
     }
 
     fn fail(&self, what: String) -> String {
-        let mut s = format!("{} mode, t={} ms: {}\n  last steps:\n", if self.sut.mode() == Mode::Exec { "executor" } else { "sharded" }, self.now, what);
+        let mut s = format!(
+            "{} mode, start epoch {} ms, t={} ms (virtual {}): {}\n  last steps:\n",
+            if self.sut.mode() == Mode::Exec { "executor" } else { "sharded" },
+            self.epoch,
+            self.now,
+            self.now - self.epoch,
+            what
+        );
         for l in &self.trace {
             s.push_str("    ");
             s.push_str(l);
@@ -995,6 +1130,31 @@ impl<'a, 'c, S: Sut> Checker<'a, 'c, S> {
         Ok(())
     }
 
+    /// Fill in the absolute-time argument of an `AbsCmd` at the current instant.
+    fn resolve_abs(&mut self, argv: &Argv, aim: &AbsAim) -> Argv {
+        let (idx, seconds) = match abs_arg(argv) {
+            Some(x) => x,
+            None => return argv.clone(),
+        };
+        let (target_ms, up) = match aim {
+            AbsAim::Virtual => match model::string2ll(&argv[idx]) {
+                Some(v) if (0..=100_000).contains(&v) => (self.epoch + if seconds { v * 1000 } else { v }, false),
+                _ => return argv.clone(), // extreme spellings stay as they are
+            },
+            AbsAim::Now(d, up) => (self.now + *d as i64, *up),
+            AbsAim::Deadline(w, d, up) => {
+                let pending = self.model.pending_deadlines();
+                let base = if pending.is_empty() { self.now } else { pending[(*w as usize * pending.len()) >> 16] };
+                (base.saturating_add(*d as i64), *up)
+            }
+        };
+        let arg = if seconds { target_ms.div_euclid(1000) + up as i64 } else { target_ms };
+        self.ctx.label(if seconds { "abs_time:aimed_seconds" } else { "abs_time:aimed_ms" });
+        let mut out = argv.clone();
+        out[idx] = arg.to_string().into_bytes();
+        out
+    }
+
     fn step_cmd(&mut self, argv: &Argv) -> Result<(), String> {
         let got = self.sut.exec(argv, self.now as u64);
         self.stale = false;
@@ -1114,7 +1274,7 @@ impl<'a, 'c, S: Sut> Checker<'a, 'c, S> {
         };
         // the harness clock stays far below the i64 range so that "now + ttl" arithmetic of
         // the model cannot overflow by itself
-        let target = target.clamp(self.now, 1i64 << 40);
+        let target = target.clamp(self.now, self.epoch + (1i64 << 40));
         if pending.iter().any(|d| *d > self.now && *d <= target) {
             self.crossed = true;
             self.ctx.label("clock:crossed_live_deadline");
@@ -1275,7 +1435,7 @@ impl<'a, 'c, S: Sut> Checker<'a, 'c, S> {
                 Some(d) => *d,
                 None => break,
             };
-            if d >= (1i64 << 40) {
+            if d >= self.epoch + (1i64 << 40) {
                 break;
             }
             let holders: Vec<Bytes> = self.model.db.iter().filter(|(_, e)| e.deadline == Some(d)).map(|(k, _)| k.clone()).collect();
@@ -1339,7 +1499,13 @@ fn run_case<S: Sut>(sut: S, case: &SeqCase, ctx: &mut CaseCtx<'_>) -> Result<(),
     if case.steps.len() > 60 {
         ctx.label("len:61..200");
     }
-    let mut ck = Checker::new(sut, case.t0 as i64, ctx);
+    ctx.label(match case.epoch_ms {
+        0 => "epoch:zero",
+        e if e % 1000 == 0 => "epoch:whole_second",
+        e if e < 2000 => "epoch:small_with_ms_fraction",
+        _ => "epoch:with_ms_fraction",
+    });
+    let mut ck = Checker::new(sut, case.epoch_ms as i64, case.t0 as i64, ctx);
     for step in &case.steps {
         match step {
             Step::Cmd(argv) => {
@@ -1347,6 +1513,10 @@ fn run_case<S: Sut>(sut: S, case: &SeqCase, ctx: &mut CaseCtx<'_>) -> Result<(),
                     continue;
                 }
                 ck.step_cmd(argv)?
+            }
+            Step::AbsCmd(argv, aim) => {
+                let resolved = ck.resolve_abs(argv, aim);
+                ck.step_cmd(&resolved)?
             }
             Step::Clock(cs) => ck.step_clock(cs, false)?,
             Step::Tick(cs) => ck.step_clock(cs, true)?,
@@ -1363,11 +1533,11 @@ fn run_case<S: Sut>(sut: S, case: &SeqCase, ctx: &mut CaseCtx<'_>) -> Result<(),
 }
 
 fn run_exec_case(case: &SeqCase, ctx: &mut CaseCtx<'_>) -> Result<(), String> {
-    run_case(ExecSut { ex: CommandExecutor::new() }, case, ctx)
+    run_case(ExecSut::new(case.epoch_ms), case, ctx)
 }
 
 fn run_shard_case(case: &SeqCase, ctx: &mut CaseCtx<'_>) -> Result<(), String> {
-    run_case(ShardSut::new(case.t0 as u64), case, ctx)
+    run_case(ShardSut::new(case.epoch_ms, case.t0 as u64), case, ctx)
 }
 
 // =====================================================================================
@@ -1382,7 +1552,7 @@ fn cb(parts: &[&[u8]]) -> Step {
 }
 
 fn probe_case(s: &Session, id: &'static str, shard: bool, steps: Vec<Step>) {
-    let case = SeqCase { t0: 1000, steps };
+    let case = SeqCase { epoch_ms: 0, t0: 1000, steps };
     let shown: Vec<String> = case
         .steps
         .iter()
@@ -1453,7 +1623,7 @@ fn probes(s: &Session) {
         KF_LOSSY_NAMES,
         json!({"steps": ["SET \\xff a", "SET \\xfe b", "GET \\xff", "SADD s \\x80 \\x81", "SCARD s"]}),
         || {
-            let mut sut = ExecSut { ex: CommandExecutor::new() };
+            let mut sut = ExecSut::new(0);
             let mut x = |parts: &[&[u8]]| sut.exec(&parts.iter().map(|p| p.to_vec()).collect(), 1000);
             x(&[b"SET", &[0xff], b"a"]);
             x(&[b"SET", &[0xfe], b"b"]);
@@ -1479,7 +1649,7 @@ fn probes(s: &Session) {
         KF_ZSET_EPS,
         json!({"steps": ["ZADD k0 0 a", "ZADD k0 CH 1e-17 a", "ZCOUNT k0 (0 +inf", "ZADD k1 -inf a", "ZADD k1 0 a", "ZRANGE k1 0 -1 WITHSCORES", "ZADD k2 inf a", "ZRANK k2 a"]}),
         || {
-            let mut sut = ExecSut { ex: CommandExecutor::new() };
+            let mut sut = ExecSut::new(0);
             let mut x = |parts: &[&str]| sut.exec(&parts.iter().map(|p| p.as_bytes().to_vec()).collect(), 1000);
             x(&["ZADD", "k0", "0", "a"]);
             let ch = x(&["ZADD", "k0", "CH", "1e-17", "a"]);
@@ -1516,6 +1686,8 @@ fn main() {
         "cases: sequences of 1..60 (thorough: up to 200) steps; a step is one syntactically valid data command from the shared \
          argv grammar (vcore::gen::data_command: ~75 commands, adversarial argument pools, all option combinations, key pool 4 or 10) \
          or a clock step (0, 1-2 ms, up to 3 s, aimed at a pending deadline -1/0/+1, seconds, hours; passive or as a TTL-manager tick); \
+         every case has a generated server start epoch (0, whole seconds, non-zero ms fractions, 1/999/1001) and absolute-time arguments \
+         (EXPIREAT, PEXPIREAT, SET/GETEX EXAT|PXAT) are aimed when the step runs: epoch+small value, now+-{0,1,999,1000,1001,..} ms, a pending deadline +- delta, or the raw grammar value; \
          sharded mode adds fast_get/fast_set/pooled_*/fast_batch_*_pipeline. After every step the reply and the whole visible keyspace \
          are compared with an independent reference model. non-trivial = the sequence has >= 1 successful write AND (some key is named \
          by commands of two different families OR a clock step crosses a live deadline); distinct by the set of (command, option words, \
@@ -1525,7 +1697,7 @@ fn main() {
     s.assume("the reference model (props/c01/src/model.rs) states Redis 7 semantics as documented in the command reference; where Redis is version dependent or undocumented the model abstains (counted as 'abstained') and adopts the implementation's answer");
     s.assume("error replies are compared by code word; exact text only for WRONGTYPE, 'no such key', 'index out of range', 'value is not an integer or out of range', 'increment or decrement would overflow', 'hash value is not an integer', 'value is not a valid float', 'min or max is not a float'");
     s.assume("float text is asserted exactly only for |v| <= 2^30 with v*16 integral; elsewhere numeric equality or abstention");
-    s.assume("harness epoch base is 0: EXAT/PXAT/EXPIREAT/PEXPIRETIME are harness milliseconds; the clock starts at 1..2000 ms and never exceeds 2^40");
+    s.assume("absolute time = start epoch + virtual clock; the start epoch is part of the case (0, whole seconds, values with a non-zero ms fraction such as 1_700_000_000_750, small 1/999/1001) and is given to the executor exactly as ShardActor::new does (set_simulation_start_epoch(ms/1000); set_simulation_start_epoch_ms(ms)); the sharded state reads it from the harness TimeSource at construction; the virtual clock starts at 1..2000 ms and never exceeds 2^40");
     s.assume("visible keyspace = KEYS * united with the model's keys, each read with TYPE, GET/LRANGE/SMEMBERS/HGETALL/ZRANGE WITHSCORES, PTTL, EXISTS, plus DBSIZE (vcore::dump)");
 
     probes(&s);
@@ -1545,6 +1717,55 @@ fn main() {
         || seq_case(exec_step, binary, max_len, thorough),
         |case, ctx| run_exec_case(case, ctx),
     );
+
+    // ---- deterministic grid: every absolute-time command x start epochs x offsets around now
+    s.describe_check(
+        "abs_time_grid",
+        "enumerated: {EXPIREAT, PEXPIREAT, SET EXAT, SET PXAT, GETEX EXAT, GETEX PXAT} x 9 start epochs (0, whole seconds, non-zero ms fractions, 1/999/1001) x 10 offsets around now (+-1 ms, +-999..1001 ms, 2.5 s) x rounding up/down x both entry modes; then PTTL/PEXPIRETIME/EXPIRETIME/TTL, clock to deadline-1 and to the deadline, GET; same oracle",
+    );
+    let mut grid: Vec<GridCase> = Vec::new();
+    for shard in [false, true] {
+        for epoch_ms in [0u64, 5_000, 1_700_000_000_000, 1_700_000_000_750, 1_700_000_000_001, 1_700_000_000_999, 1, 999, 1001] {
+            for sel in 0..6 {
+                for d in [-1001i32, -1000, -999, -1, 0, 1, 999, 1000, 1001, 2500] {
+                    for up in [false, true] {
+                        let argv: Vec<&str> = match sel {
+                            0 => vec!["EXPIREAT", "k0", "0"],
+                            1 => vec!["PEXPIREAT", "k0", "0"],
+                            2 => vec!["SET", "k0", "w", "EXAT", "0"],
+                            3 => vec!["SET", "k0", "w", "PXAT", "0"],
+                            4 => vec!["GETEX", "k0", "EXAT", "0"],
+                            _ => vec!["GETEX", "k0", "PXAT", "0"],
+                        };
+                        let abs = match c(&argv) {
+                            Step::Cmd(a) => Step::AbsCmd(a, AbsAim::Now(d, up)),
+                            other => other,
+                        };
+                        let steps = vec![
+                            c(&["SET", "k0", "v"]),
+                            abs,
+                            c(&["PTTL", "k0"]),
+                            c(&["PEXPIRETIME", "k0"]),
+                            c(&["EXPIRETIME", "k0"]),
+                            c(&["TTL", "k0"]),
+                            Step::Clock(ClockStep::Aim(0, -1)),
+                            c(&["GET", "k0"]),
+                            Step::Clock(ClockStep::Aim(0, 0)),
+                            c(&["GET", "k0"]),
+                        ];
+                        grid.push(GridCase { shard, case: SeqCase { epoch_ms, t0: 1500, steps } });
+                    }
+                }
+            }
+        }
+    }
+    s.run_enumerated("abs_time_grid", grid.into_iter(), |g, ctx| {
+        if g.shard {
+            run_shard_case(&g.case, ctx)
+        } else {
+            run_exec_case(&g.case, ctx)
+        }
+    });
 
     s.describe_check(
         "shard_seq",
